@@ -44,7 +44,10 @@ def run(core, tier, replay):
     ev["coverage"]["second_explorer"] = {"tool": "stateright 0.31 spawn_bfs", "names": res["names"], "unique_states": res["unique_states"], "expected_ordered_subsets": res["expected"], "discoveries": len(res["discoveries"]), "done": res["done"]}
     json.dump(ev, open(evp, "w"), indent=1)
     print(f"C13 second explorer (stateright): unique_states={res['unique_states']} expected={res['expected']} discoveries={len(res['discoveries'])}")
-    first_found = rc == 1
+    # the second explorer covers the explicit-state search over the small alphabet; violations found only by the long-list
+    # family (keys ending in /long-list) are outside its space
+    keys = ev["coverage"].get("new_violation_keys", [])
+    first_found = rc == 1 and any(not k.endswith("/long-list") for k in keys)
     second_found = len(res["discoveries"]) > 0
     if first_found != second_found:
         print(f"MACHINERY-ERROR: the two explorers disagree (vmain violation={first_found}, stateright discovery={second_found}): {res['discoveries'][:2]}")
